@@ -1,4 +1,229 @@
-import EE.Model.Program
+import EE.Lemmas.DecLemmas
+import EE.Model.Builtins
+import EE.Model.Eval
+/-! # C09 — number literals and decimal arithmetic are exact
+
+A decimal `d` denotes the rational `d.num / 10^d.scale`. Statements about values are written
+without division, by cross-multiplication: "`d` denotes `n / 10^s`" is `d.num * 10^s = n * 10^d.scale`.
+`rust_decimal` itself is modelled (exact when representable), not verified; that the library
+agrees is what the literal/arith correspondence streams and the rational oracle sample. -/
 namespace EE.Props.C09
-theorem placeholder : True := trivial
+open EE Dec
+
+/-! ## Literals: digits and scale preserved -/
+
+theorem span_digits_then (ds rest : List Char) (h : ds.all isAsciiDigit = true)
+    (hr : ∀ c r, rest = c :: r → isAsciiDigit c = false) : span isAsciiDigit (ds ++ rest) = (ds, rest) := by
+  induction ds with
+  | nil =>
+    cases rest with
+    | nil => rfl
+    | cons c r => simp [span, hr c r rfl]
+  | cons d ds ih =>
+    simp at h
+    simp [span, h.1, ih (by simpa using h.2)]
+
+/-- A literal `ddd.fff` (at most 28 fractional digits, value below 2^96 — in particular every
+literal with at most 28 significant digits) is exactly that decimal: mantissa = the digits,
+scale = the number of fractional digits. Nothing is rounded, normalised or routed through a float. -/
+theorem literal_with_fraction (ds fs : List Char) (hd : ds.all isAsciiDigit = true) (hne : ds ≠ [])
+    (hf : fs.all isAsciiDigit = true) (hlen : fs.length ≤ 28) (hfit : natOfDigits (ds ++ fs) < mantLimit) :
+    ofText (ds ++ '.' :: fs) = .ok ⟨false, natOfDigits (ds ++ fs), fs.length⟩ := by
+  have hip : natOfDigits ds < mantLimit := by
+    rw [natOfDigits_append] at hfit
+    have : 1 ≤ 10 ^ fs.length := Nat.pow_pos (by decide)
+    calc natOfDigits ds ≤ natOfDigits ds * 10 ^ fs.length := Nat.le_mul_of_pos_right _ this
+      _ ≤ _ := Nat.le_add_right _ _
+      _ < _ := hfit
+  unfold ofText
+  rw [span_digits_then ds ('.' :: fs) hd (by intro c r e; cases e; decide)]
+  have h2 := span_digits_then fs [] hf (by intro c r e; cases e)
+  simp only [List.append_nil] at h2
+  simp [hne, fracPart, h2, maxScale, hlen, hfit, Nat.not_le.mpr hip]
+
+theorem literal_integer (ds : List Char) (hd : ds.all isAsciiDigit = true) (hne : ds ≠ [])
+    (hfit : natOfDigits ds < mantLimit) : ofText ds = .ok ⟨false, natOfDigits ds, 0⟩ := by
+  unfold ofText
+  have h := span_digits_then ds [] hd (by intro c r e; cases e)
+  simp only [List.append_nil] at h
+  simp [h, hne, fracPart, hfit, Nat.not_le.mpr hfit, maxScale]
+
+/-- 28 significant digits always fit: 10^28 < 2^96. -/
+theorem twenty_eight_digits_fit : (10 : Nat) ^ 28 < mantLimit := by decide
+
+/-- The literal is carried unchanged through the AST and the evaluator into `Value::Number`. -/
+theorem literal_to_value (d : Dec) : litValue (.num d) = .num d := rfl
+
+/-- A run that is not `digit+ ('.' digit*)?` — a second dot, an exponent marker, a sign — is
+rejected, never truncated to its valid prefix. -/
+theorem invalid_rejected (cs : List Char) (d : Dec) (h : ofText cs = .ok d) :
+    ∃ ip fp, ip ≠ [] ∧ ip.all isAsciiDigit = true ∧ fp.all isAsciiDigit = true ∧ (cs = ip ∨ cs = ip ++ '.' :: fp) := by
+  unfold ofText at h
+  have hsp := span_append isAsciiDigit cs
+  have hall := span_all isAsciiDigit cs
+  generalize span isAsciiDigit cs = p at h hsp hall
+  obtain ⟨ip, r⟩ := p
+  simp only at h hsp hall
+  have hipall : ip.all isAsciiDigit = true := by simpa [List.all_eq_true] using hall
+  by_cases hemp : ip.isEmpty = true
+  · simp [hemp] at h
+  · simp only [hemp, Bool.false_eq_true, if_false] at h
+    have hne : ip ≠ [] := by intro e; subst e; simp at hemp
+    cases hfp : fracPart r with
+    | none => simp [hfp] at h
+    | some fp =>
+      cases r with
+      | nil =>
+        exact ⟨ip, [], hne, hipall, rfl, Or.inl (by simpa using hsp.symm)⟩
+      | cons c r' =>
+        simp only [fracPart] at hfp
+        by_cases hc : c = '.'
+        · subst hc
+          simp only [if_true] at hfp
+          by_cases he : (span isAsciiDigit r').2.isEmpty = true
+          · simp only [he, if_true, Option.some.injEq] at hfp
+            have hsp2 := span_append isAsciiDigit r'
+            have hall2 := span_all isAsciiDigit r'
+            have : (span isAsciiDigit r').2 = [] := by simpa using he
+            rw [this, List.append_nil, hfp] at hsp2
+            rw [hfp] at hall2
+            refine ⟨ip, fp, hne, hipall, by simpa [List.all_eq_true] using hall2, Or.inr ?_⟩
+            rw [← hsp, hsp2]
+          · simp [he] at hfp
+        · simp [hc] at hfp
+
+/-! ## Equality and order are by value -/
+
+theorem pow_split (a b : Nat) : (10 : Int) ^ (max a b - a) * 10 ^ (a + b - max a b) = 10 ^ b := by
+  rw [← Int.pow_add]; congr 1; omega
+
+theorem aligned_x (a b : Dec) : (align a b).1 * 10 ^ (a.scale + b.scale - max a.scale b.scale) = a.num * 10 ^ b.scale := by
+  simp only [align, Int.natCast_pow, Int.cast_ofNat_Int]
+  rw [Int.mul_assoc, pow_split]
+theorem aligned_y (a b : Dec) : (align a b).2.1 * 10 ^ (a.scale + b.scale - max a.scale b.scale) = b.num * 10 ^ a.scale := by
+  simp only [align, Int.natCast_pow, Int.cast_ofNat_Int]
+  rw [Int.mul_assoc]
+  have := pow_split b.scale a.scale
+  rw [Nat.max_comm, Nat.add_comm b.scale] at this
+  rw [this]
+
+/-- `a == b` holds exactly when the two numbers are equal as rationals, whatever their trailing zeros. -/
+theorem eq_by_value (a b : Dec) : Dec.beq a b = true ↔ a.num * 10 ^ b.scale = b.num * 10 ^ a.scale := by
+  simp only [Dec.beq, cmpKey, beq_iff_eq]
+  rw [← aligned_x, ← aligned_y]
+  have hp := pow10_pos (a.scale + b.scale - max a.scale b.scale)
+  constructor
+  · intro h; rw [show (align a b).1 = (align a b).2.1 from h]
+  · intro h; exact Int.eq_of_mul_eq_mul_right (Int.ne_of_gt hp) h
+
+theorem lt_by_value (a b : Dec) : Dec.lt a b = true ↔ a.num * 10 ^ b.scale < b.num * 10 ^ a.scale := by
+  have hkey : Dec.lt a b = true ↔ (align a b).1 < (align a b).2.1 := by
+    simp only [Dec.lt, cmpKey]; exact ⟨of_decide_eq_true, decide_eq_true⟩
+  rw [hkey, ← aligned_x, ← aligned_y]
+  have hp := pow10_pos (a.scale + b.scale - max a.scale b.scale)
+  constructor
+  · intro h; exact Int.mul_lt_mul_of_pos_right h hp
+  · intro h; exact Int.lt_of_mul_lt_mul_right h (Int.le_of_lt hp)
+
+theorem le_by_value (a b : Dec) : Dec.le a b = true ↔ a.num * 10 ^ b.scale ≤ b.num * 10 ^ a.scale := by
+  have hkey : Dec.le a b = true ↔ (align a b).1 ≤ (align a b).2.1 := by
+    simp only [Dec.le, cmpKey]; exact ⟨of_decide_eq_true, decide_eq_true⟩
+  rw [hkey, ← aligned_x, ← aligned_y]
+  have hp := pow10_pos (a.scale + b.scale - max a.scale b.scale)
+  constructor
+  · intro h; exact Int.mul_le_mul_of_nonneg_right h (Int.le_of_lt hp)
+  · intro h; exact Int.le_of_mul_le_mul_right h hp
+
+/-! ## Arithmetic is exact whenever the exact result fits -/
+
+theorem ofNumScale_num (n : Int) (s : Nat) : (ofNumScale n s).num = n ∧ (ofNumScale n s).scale = s := by
+  unfold ofNumScale num
+  by_cases h : n < 0
+  · simp [h]; omega
+  · simp [h]; omega
+
+/-- Soundness: whatever `fit` returns as a value denotes exactly `n / 10^s`, within the 96-bit / 28-digit format. -/
+theorem fit_exact (n : Int) (s : Nat) (d : Dec) (h : fit n s = .ok d) :
+    d.num * 10 ^ s = n * 10 ^ d.scale ∧ d.WF := by
+  unfold fit at h
+  have hs := normNS_spec n s
+  generalize normNS n s = p at h hs
+  obtain ⟨n', s'⟩ := p
+  simp only at h hs
+  split at h
+  · rename_i hfit
+    cases h
+    have hn := ofNumScale_num n' s'
+    refine ⟨?_, ?_⟩
+    · rw [hn.1, hn.2]
+      conv => rhs; rw [hs.2]
+      rw [Int.mul_assoc, ← Int.pow_add]
+      congr 2; omega
+    · unfold WF ofNumScale; simpa using ⟨hfit.2, hfit.1⟩
+  · split at h <;> cases h
+
+/-- Completeness: if the exact value `n / 10^s` is representable at all — by *some* mantissa below
+2^96 at *some* scale ≤ 28 — the result is a value (never overflow, never the rounding zone). -/
+theorem fit_complete (n : Int) (s : Nat) (m : Int) (sc : Nat) (hsc : sc ≤ maxScale) (hm : m.natAbs < mantLimit)
+    (hv : m * 10 ^ s = n * 10 ^ sc) : ∃ d, fit n s = .ok d := by
+  have hs := normNS_spec n s
+  have hmin := normNS_min n s
+  unfold fit
+  generalize normNS n s = p at hs hmin
+  obtain ⟨n', s'⟩ := p
+  simp only at hs hmin ⊢
+  -- m * 10^s' = n' * 10^sc
+  have key : m * 10 ^ s' = n' * 10 ^ sc := by
+    have e : (10 : Int) ^ s = 10 ^ s' * 10 ^ (s - s') := by rw [← Int.pow_add]; congr 1; omega
+    rw [hs.2, e] at hv
+    have : m * 10 ^ s' * 10 ^ (s - s') = n' * 10 ^ sc * 10 ^ (s - s') := by
+      rw [Int.mul_assoc, hv, Int.mul_assoc, Int.mul_assoc, Int.mul_comm ((10 : Int) ^ (s - s'))]
+    exact Int.eq_of_mul_eq_mul_right (Int.ne_of_gt (pow10_pos _)) this
+  have hle : s' ≤ sc := by
+    apply Decidable.byContradiction
+    intro hgt
+    have hgt : sc < s' := by omega
+    have hpos : 0 < s' := by omega
+    have e : (10 : Int) ^ s' = 10 ^ (s' - sc - 1) * 10 * 10 ^ sc := by
+      rw [← Int.pow_succ, ← Int.pow_add]; congr 1; omega
+    rw [e, ← Int.mul_assoc, ← Int.mul_assoc] at key
+    have := Int.eq_of_mul_eq_mul_right (Int.ne_of_gt (pow10_pos sc)) key
+    apply hmin hpos
+    rw [← this]
+    exact Int.mul_emod_left _ _
+  have hn' : n'.natAbs ≤ m.natAbs := by
+    have e : (10 : Int) ^ sc = 10 ^ s' * 10 ^ (sc - s') := by rw [← Int.pow_add]; congr 1; omega
+    rw [e, ← Int.mul_assoc] at key
+    have hk : m * 10 ^ s' = n' * 10 ^ (sc - s') * 10 ^ s' := by
+      rw [key, Int.mul_assoc, Int.mul_assoc, Int.mul_comm ((10 : Int) ^ s')]
+    have := Int.eq_of_mul_eq_mul_right (Int.ne_of_gt (pow10_pos s')) hk
+    rw [this, Int.natAbs_mul, Int.natAbs_pow]
+    exact Nat.le_mul_of_pos_right _ (Nat.pow_pos (by decide))
+  have : s' ≤ maxScale ∧ n'.natAbs < mantLimit := ⟨by omega, by omega⟩
+  simp [this]
+
+/-- `+ - *` on two decimals: if the result is a value it is the exact sum / difference / product. -/
+theorem add_exact (a b d : Dec) (h : Dec.add a b = .ok d) :
+    d.num * 10 ^ (max a.scale b.scale) = ((align a b).1 + (align a b).2.1) * 10 ^ d.scale :=
+  (fit_exact _ _ d h).1
+theorem sub_exact (a b d : Dec) (h : Dec.sub a b = .ok d) :
+    d.num * 10 ^ (max a.scale b.scale) = ((align a b).1 - (align a b).2.1) * 10 ^ d.scale :=
+  (fit_exact _ _ d h).1
+theorem mul_exact (a b d : Dec) (h : Dec.mul a b = .ok d) :
+    d.num * 10 ^ (a.scale + b.scale) = (a.num * b.num) * 10 ^ d.scale :=
+  (fit_exact _ _ d h).1
+/-- `%` is the truncated remainder, with the sign of the dividend. -/
+theorem rem_exact (a b d : Dec) (hb : b.isZero = false) (h : Dec.rem a b = .ok d) :
+    d.num * 10 ^ (max a.scale b.scale) = Int.tmod (align a b).1 (align a b).2.1 * 10 ^ d.scale := by
+  unfold Dec.rem at h
+  simp only [hb, Bool.false_eq_true, if_false] at h
+  exact (fit_exact _ _ d h).1
+
+/-! Witnesses (kernel-checked): the classic binary-float traps are exact. -/
+example : Dec.add ⟨false, 1, 1⟩ ⟨false, 2, 1⟩ = .ok ⟨false, 3, 1⟩ := by rfl
+example : Dec.beq ⟨false, 110, 2⟩ ⟨false, 11, 1⟩ = true := by decide
+example : ofText ['1', '.', '1', '0'] = .ok ⟨false, 110, 2⟩ := by rfl
+example : ofText ['1', 'e', '5'] = .err .invalidNumber := by rfl
+example : ofText ['1', '.', '2', '.', '3'] = .err .invalidNumber := by rfl
+
 end EE.Props.C09
